@@ -49,6 +49,9 @@ type sCase struct {
 	Mute      []int // bit masks: Byzantine participant i's own MPC frames are dropped for the honest victims in the mask
 	Moves     []sMove
 	Sched     sim.Schedule
+	// SlowInit: the backend of this participant (0 = none) spends SlowMs of virtual time inside Init - the others carry on
+	SlowInit int `json:",omitempty"`
+	SlowMs   int `json:",omitempty"`
 }
 
 func genSCase(byzantine bool) func(t *rapid.T) sCase {
@@ -116,6 +119,10 @@ func genSCase(byzantine bool) func(t *rapid.T) sCase {
 					Replay: rapid.IntRange(0, 500).Draw(t, "replay"),
 				})
 			}
+		}
+		if !byzantine && rapid.IntRange(0, 3).Draw(t, "slowInit") == 0 {
+			c.SlowInit = rapid.IntRange(1, c.N).Draw(t, "slowWho")
+			c.SlowMs = rapid.SampledFrom([]int{150, 300, 700, 1500, 3000}).Draw(t, "slowMs")
 		}
 		c.Sched = genSchedule(t, 250)
 		return c
@@ -204,6 +211,13 @@ func runSCase(prop string) func(c sCase) *vh.Outcome {
 			hold := make(chan struct{})
 			mk := func(node uint16, session string) *backends.Rec {
 				r := &backends.Rec{Node: node, Tape: tape, Script: script, Session: session}
+				if c.SlowInit > 0 && int(node) == c.SlowInit && session == sess {
+					r.Hook = func(point string) {
+						if point == "init" {
+							time.Sleep(time.Duration(c.SlowMs) * time.Millisecond)
+						}
+					}
+				}
 				if session == sess {
 					r.Hold = hold
 				} else {
